@@ -4,6 +4,18 @@ import jax.numpy as jnp
 from fdtdx.core.misc import PaddingConfig, advanced_padding
 
 
+def _convolve2d_same(image: jax.Array, kernel: jax.Array) -> jax.Array:
+    """Zero-filled 2D convolution with the output shape of ``image`` (odd-sized kernels).
+
+    ``jax.scipy.signal.convolve2d(mode="same")`` raises if the image is smaller than the kernel along one axis but
+    larger along the other (e.g. a 5x2 slice with a 3x3 kernel). Explicit zero padding followed by ``mode="valid"``
+    is equivalent and works for every image shape.
+    """
+    pad_h, pad_w = kernel.shape[0] // 2, kernel.shape[1] // 2
+    padded = jnp.pad(image, ((pad_h, pad_h), (pad_w, pad_w)))
+    return jax.scipy.signal.convolve2d(padded, kernel, mode="valid")
+
+
 def _iterate_to_fixpoint(step_fn, arr: jax.Array) -> jax.Array:
     """Applies the monotone dilation step until the array does not change any more (flood fill)."""
 
@@ -310,7 +322,7 @@ def dilate_jax(image: jax.Array, kernel: jax.Array) -> jax.Array:
     Returns:
         jax.Array: Dilated binary array.
     """
-    conv = jax.scipy.signal.convolve2d(image, kernel, mode="same", boundary="fill")
+    conv = _convolve2d_same(image, kernel)
     binary_arr = jnp.asarray(conv, dtype=bool)
     return binary_arr
 
@@ -325,7 +337,7 @@ def erode_jax(image: jax.Array, kernel: jax.Array) -> jax.Array:
     Returns:
         jax.Array: Eroded binary array.
     """
-    conv = jax.scipy.signal.convolve2d(~image, kernel, mode="same", boundary="fill")
+    conv = _convolve2d_same(~image, kernel)
     binary_arr = jnp.asarray(conv, dtype=bool)
     return ~binary_arr
 
@@ -355,7 +367,7 @@ def seperated_3d_dilation(
     """
 
     def convolve_partial(image: jax.Array, kernel: jax.Array):
-        return jax.scipy.signal.convolve2d(image, kernel, mode="same", boundary="fill")
+        return _convolve2d_same(image, kernel)
 
     arr_3d = jax.vmap(convolve_partial, in_axes=(2, None), out_axes=(2))(arr_3d, kernel_xy)
     arr_3d = jnp.asarray(arr_3d, dtype=bool)
